@@ -14,7 +14,32 @@
 (*        | erswrap(e)                ers.Wrap(e, annotation)                  *)
 (*        | panic(e)                  ers.ParsePanic(e)                        *)
 (*        | panics(es)                ers.ParsePanic([]error{es...})           *)
-(*      with nil allowed in every argument position.                           *)
+(*      with nil allowed in every argument position, and the "nil-like" and    *)
+(*      "holey" operands of XAtoms:                                            *)
+(*        nstack                      a typed-nil *ers.Stack (ers.AsStack(nil), *)
+(*                                    var st *ers.Stack) stored in an error:    *)
+(*                                    Stack.Len/Ok/Resolve/CheckProducer, the   *)
+(*                                    *Stack branch of Push (merged.go:90-97)   *)
+(*                                    and ers.Ok treat a nil *Stack as "no      *)
+(*                                    error", so it must be IGNORED wherever an *)
+(*                                    aggregator takes an operand               *)
+(*        hunwind(es) hunwrap(es)     the caller's own composite error whose    *)
+(*        hboth(es)                   Unwind() []error / Unwrap() []error hands *)
+(*                                    out ITS OWN slice, nil holes included     *)
+(*                                    (hboth: Unwind() lists es, Unwrap() []error *)
+(*                                    lists an unrelated error - Unwind wins,   *)
+(*                                    merged.go:98-104, internal/wrap.go:11-17) *)
+(*      These are operands only ("Exposed"): they never stand at the root or    *)
+(*      below fmt.Errorf(%w), where the standard library - not ers - would walk *)
+(*      them (errors.Is on a nil *Stack, errors.As over a nil hole panic in     *)
+(*      the callers' own code / stdlib, which C12 does not speak about).        *)
+(*  (1b) The OBSERVATION SCHEDULE: besides observing the result once            *)
+(*      (<<"root">>), a behaviour may observe the composite OPERANDS with       *)
+(*      ers.Unwind while the term is being built, build further, observe the    *)
+(*      result, observe the operands again and the result again                 *)
+(*      (<<"probe","root","probe","root">>).  Observation is pure: the spec     *)
+(*      gives ONE expected listing per operand (probes) and one vector for the  *)
+(*      result, whatever was observed before.                                   *)
 (*  (2) An ORACLE that is independent of how the Go code walks its linked      *)
 (*      list: Cons(t) = the bag of supplied non-nil constituents (a singly     *)
 (*      wrapped error counts as ONE constituent; multi-errors and stacks are   *)
@@ -39,7 +64,10 @@ CONSTANTS LeafIds,      \* leaves used in enumerated terms, e.g. {"s1","p1","t1"
           MaxDepth,     \* operator nesting depth of the enumerated terms
           MaxArity,     \* arguments of the n-ary operators
           UnOps, NOps,  \* operators used by the enumeration
-          SimSteps      \* length of a random construction in -simulate mode
+          SimSteps,     \* length of a random construction in -simulate mode
+          NilLike,      \* extra nil-like atoms: a subset of {"nstack"}
+          Holey         \* holey composite atoms: a set of <<op, shape>>, op \in HOps, shape a
+                        \* sequence over LeafIds \cup {"nil"}, e.g. <<"hunwind", <<"s1","nil","t1">> >>
 
 \* the fixed universe the observation vector ranges over (kind = first letter:
 \* s sentinel constant (ers.Error), p pointer error (errors.New), t typed error
@@ -59,18 +87,39 @@ Leaf(i)  == T("leaf", i, <<>>)
 Un(o, x) == T(o, "", <<x>>)
 Nary(o, xs) == T(o, "", xs)
 
-Atoms == {Nil} \cup {Leaf(i) : i \in LeafIds}
+HOps   == {"hunwind", "hunwrap", "hboth"}
+NStack == T("nstack", "", <<>>)
+ASSUME NilLike \subseteq {"nstack"}
+ASSUME \A h \in Holey : h[1] \in HOps /\ \A i \in 1..Len(h[2]) : h[2][i] \in LeafIds \cup {"nil"}
+
+\* shape sets for the cfg files (a cfg file cannot write tuples): `Holey <- HoleyA`
+HoleyA == { <<"hunwind", <<"s1", "nil", "t1">> >>, <<"hunwrap", <<"nil", "s1">> >>,
+            <<"hunwrap", <<"t1", "nil", "nil", "s1">> >>, <<"hboth", <<"s1", "nil", "t1">> >>,
+            <<"hunwind", <<"nil", "nil">> >> }
+HoleyB == { <<"hunwind", <<"s1", "nil", "s1">> >>, <<"hunwrap", <<"nil", "s1">> >> }
+
+PlainAtoms == {Nil} \cup {Leaf(i) : i \in LeafIds}
+XAtoms == {T(x, "", <<>>) : x \in NilLike}
+          \cup {Nary(h[1], [i \in 1..Len(h[2]) |-> IF h[2][i] = "nil" THEN Nil ELSE Leaf(h[2][i])]) : h \in Holey}
+Atoms == PlainAtoms \cup XAtoms
 Tuples(S, n) == UNION {[1..k -> S] : k \in 0..n}
+
+\* operand-only values: the aggregators flatten / ignore them, the standard library must never be
+\* asked to walk them (so: not the root, not below fmt.Errorf(%w); errors.Join keeps them as they are)
+RECURSIVE Exposed(_)
+Exposed(x) == \/ x.op \in HOps \cup {"nstack"}
+              \/ x.op = "multi" /\ \E i \in 1..Len(x.args) : Exposed(x.args[i])
 
 RECURSIVE Terms(_)
 Terms(d) == IF d = 0 THEN Atoms
             ELSE LET S == Terms(d - 1) IN
-                 S \cup {Un(o, x) : o \in UnOps, x \in S}
+                 S \cup {Un(o, x) : o \in UnOps \ {"wrap1"}, x \in S}
+                   \cup {Un("wrap1", x) : x \in {y \in S : "wrap1" \in UnOps /\ ~Exposed(y)}}
                    \cup {Nary(o, xs) : o \in NOps, xs \in Tuples(S, MaxArity)}
 
 Aggregator == {"join", "sres", "stack", "coll", "erswrap", "panic", "panics"}
 Resolving  == {"join", "sres", "panics"}        \* results of Stack.Resolve(): the single case is the error itself
-Flat       == {"multi", "join", "sres", "stack", "coll", "panics"}
+Flat       == {"multi", "join", "sres", "stack", "coll", "panics"} \cup HOps
 
 Child(p, i) == p \o "." \o ToString(i)
 
@@ -86,6 +135,7 @@ RECURSIVE Cons(_, _), NonNil(_, _), OkT(_, _), DeepLeaves(_, _), PlainId(_, _)
 \* constituents of t (at path p) when t is handed to an aggregator: a bag, written as a sequence
 Cons(t, p) ==
   CASE t.op = "nil"     -> <<>>
+    [] t.op = "nstack"  -> <<>>                                  \* a nil *Stack holds nothing: ignored
     [] t.op = "leaf"    -> <<t.id>>
     [] t.op = "wrap1"   -> <<"@" \o p>>                          \* one constituent, whatever it wraps
     [] t.op \in Flat    -> ConcatAll([i \in 1..Len(t.args) |-> Cons(t.args[i], Child(p, i))])
@@ -97,6 +147,8 @@ Cons(t, p) ==
 \* is the Go value a non-nil interface?
 NonNil(t, p) ==
   CASE t.op = "nil"     -> FALSE
+    [] t.op = "nstack"  -> TRUE                                  \* the interface value is not nil ...
+    [] t.op \in HOps    -> TRUE                                  \* the caller's own object, even when it lists nothing
     [] t.op = "leaf"    -> TRUE
     [] t.op = "wrap1"   -> TRUE
     [] t.op = "multi"   -> \E i \in 1..Len(t.args) : NonNil(t.args[i], Child(p, i))
@@ -105,8 +157,8 @@ NonNil(t, p) ==
     [] t.op = "erswrap" -> ~OkT(t.args[1], Child(p, 1))
     [] t.op = "panic"   -> NonNil(t.args[1], Child(p, 1))
 
-\* ers.Ok(value): nil, or an empty *Stack
-OkT(t, p) == ~NonNil(t, p) \/ (t.op = "stack" /\ Cons(t, p) = <<>>)
+\* ers.Ok(value): nil, or an empty / nil *Stack       (... but ers.Ok says it is no error: ers.go Ok, merged.go Ok)
+OkT(t, p) == ~NonNil(t, p) \/ (t.op \in {"stack", "nstack"} /\ Cons(t, p) = <<>>)
 
 \* every leaf that can be reached through single or multi wrapping
 DeepLeaves(t, p) ==
@@ -120,7 +172,7 @@ PlainId(t, p) ==
   CASE t.op = "leaf"   -> t.id
     [] t.op = "wrap1"  -> "@" \o p
     [] t.op \in Resolving ->
-         LET nn == {i \in 1..Len(t.args) : NonNil(t.args[i], Child(p, i))} IN
+         LET nn == {i \in 1..Len(t.args) : Cons(t.args[i], Child(p, i)) # <<>>} IN   \* nil, nil / empty *Stack, all-hole composites are ignored
          IF Cardinality(nn) = 1 THEN LET i == CHOOSE i \in nn : TRUE IN PlainId(t.args[i], Child(p, i)) ELSE ""
     [] OTHER -> ""
 
@@ -136,10 +188,43 @@ Groups(t, p) ==
 
 Root == "r"
 
-Obs(t) ==
+--------------------------------------------------------------------------
+\* observing the operands: ers.Unwind(operand) for the composite operands of the term
+\* the name the harness knows a directly listed value by ("?" = depends on what an aggregator returned)
+DirectId(t, p) ==
+  CASE t.op = "leaf"  -> t.id
+    [] t.op = "wrap1" -> "@" \o p
+    [] t.op = "multi" -> "m@" \o p
+    [] t.op = "stack" -> "st@" \o p
+    [] t.op \in HOps  -> "h@" \o p
+    [] OTHER          -> "?"
+
+\* the listing of a composite that hands out / is made of its direct elements: the non-nil ones, in order
+DirectIds(t, p) ==
+  LET nn == SelectSeq([i \in 1..Len(t.args) |-> i], LAMBDA i : NonNil(t.args[i], Child(p, i)))
+  IN  [k \in 1..Len(nn) |-> DirectId(t.args[nn[k]], Child(p, nn[k]))]
+
+\* what ers.Unwind(operand) must list, every time it is asked
+ProbeAt(t, p) ==
+  CASE t.op \in HOps  -> {[path |-> p, mode |-> "seq", ids |-> DirectIds(t, p)]}     \* Unwind()/Unwrap() []error minus the holes
+    [] t.op = "multi" -> IF \E i \in 1..Len(t.args) : NonNil(t.args[i], Child(p, i)) /\ DirectId(t.args[i], Child(p, i)) = "?"
+                           THEN {}
+                         ELSE IF NonNil(t, p) THEN {[path |-> p, mode |-> "seq", ids |-> DirectIds(t, p)]} ELSE {}
+    [] t.op = "stack" -> {[path |-> p, mode |-> "bag", ids |-> Cons(t, p)]}           \* order inside: see Groups, judged at the root only
+    [] OTHER          -> {}
+
+RECURSIVE Probes(_, _)
+Probes(t, p) == UNION {ProbeAt(t.args[i], Child(p, i)) \cup Probes(t.args[i], Child(p, i)) : i \in 1..Len(t.args)}
+
+Plain    == <<"root">>
+Repeated == <<"probe", "root", "probe", "root">>
+
+Obs(t, sched) ==
   LET dl == DeepLeaves(t, Root)
       agg == t.op \in Aggregator IN
   [ term   |-> t,
+    sched  |-> sched,
+    probes |-> IF "probe" \in {sched[i] : i \in 1..Len(sched)} THEN Probes(t, Root) ELSE {},
     agg    |-> agg,
     nonnil |-> NonNil(t, Root),
     ok     |-> OkT(t, Root),
@@ -162,10 +247,13 @@ OracleSane(t) ==
 VARIABLES t, stk, n
 vars == <<t, stk, n>>
 
-EnumInit == t \in Terms(MaxDepth) /\ stk = <<>> /\ n = 0
+EnumInit == t \in {x \in Terms(MaxDepth) : ~Exposed(x)} /\ stk = <<>> /\ n = 0
 EnumNext == FALSE /\ UNCHANGED vars
 EnumSpec == EnumInit /\ [][EnumNext]_vars
-Emit == PrintT(<<"BEH", ToJson(Obs(t))>>)
+EmitBoth(x) == /\ PrintT(<<"BEH", ToJson(Obs(x, Plain))>>)
+               /\ (Probes(x, Root) = {} \/ PrintT(<<"BEH", ToJson(Obs(x, Repeated))>>))
+Emit == EmitBoth(t)
+EmitPlain == PrintT(<<"BEH", ToJson(Obs(t, Plain))>>)      \* (large configurations of the quick tier: result observed once)
 Sane == OracleSane(t)
 
 \* (b) random deeper terms (-simulate): a postfix construction; every step picks its
@@ -175,7 +263,8 @@ Min(a, b) == IF a < b THEN a ELSE b
 SimInit == t = Nil /\ stk = <<>> /\ n = 0
 PushAtom == stk' = Append(stk, RandomElement(Atoms))
 ApplyUn  == /\ Len(stk) >= 1
-            /\ stk' = [stk EXCEPT ![Len(stk)] = Un(RandomElement(UnOps), @)]
+            /\ LET ops == IF Exposed(stk[Len(stk)]) THEN UnOps \ {"wrap1"} ELSE UnOps IN
+               stk' = [stk EXCEPT ![Len(stk)] = Un(RandomElement(ops), @)]
 ApplyN   == /\ Len(stk) >= 1
             /\ LET k == RandomElement(1..Min(MaxArity, Len(stk))) IN
                stk' = SubSeq(stk, 1, Len(stk) - k) \o
@@ -185,6 +274,6 @@ Finish   == /\ n = SimSteps /\ Len(stk) >= 1
 SimNext == \/ n < SimSteps /\ n' = n + 1 /\ UNCHANGED t /\ (PushAtom \/ ApplyUn \/ ApplyN)
            \/ Finish
 SimSpec == SimInit /\ [][SimNext]_vars
-SimEmit == n <= SimSteps \/ PrintT(<<"BEH", ToJson(Obs(t))>>)
+SimEmit == n <= SimSteps \/ EmitBoth(t)
 SimSane == n <= SimSteps \/ OracleSane(t)
 =============================================================================
